@@ -10,6 +10,34 @@ OR = "receiver::objectreceiver::ObjectReceiver"
 RC = "receiver::receiver::Receiver"
 
 
+def attach_order_rule(ctx, rule):
+    """attach_fdt establishes what init_object_writer requires before it calls it (shared with C02.R5)"""
+    prog = ctx.prog
+    f = prog.fn(OR + "::attach_fdt")
+    fl = Flow(f.body)
+    inits = call_sites(f, lambda p, c: p == OR + "::init_object_writer")
+    if not inits:
+        raise model.AnchorMissing("attach_fdt does not call init_object_writer")
+    for fld in ("fdt_instance_id", "cenc", "oti", "transfer_length"):
+        accs = [a for a in field_accesses(prog, OR, fld, funcs=[f]) if a["kind"] == "assign"]
+        late = [a for a in accs for c in inits if c.bb != a["bb"] and fl.dominates(c.bb, a["bb"])]
+        key = "attach_fdt: self.%s set before init_object_writer" % fld
+        if late:
+            rule.violation(key, "self.%s is assigned after init_object_writer() was called: init_object_writer refuses to create the writer while a required "
+                                "field is unknown, so the writer is not opened and blocks decoded before the FDT are never flushed" % fld, loc(late[0]["sp"]))
+        elif accs:
+            rule.ok(key, "%d assignment(s), none after the call" % len(accs), loc(accs[0]["sp"]))
+    # the instance id is set on every path to the call
+    ids = set(a["bb"] for a in field_accesses(prog, OR, "fdt_instance_id", funcs=[f]) if a["kind"] == "assign" and show(a["value"]).startswith("Option::Some"))
+    for c in inits:
+        ok, w = fl.must_pass(0, [c.bb], lambda n: n[0] == "b" and n[1] in ids)
+        key = "attach_fdt: fdt_instance_id = Some(..) on every path to init_object_writer"
+        if ok and ids:
+            rule.ok(key, "", c.loc)
+        else:
+            rule.violation(key, "init_object_writer can be reached without the FDT instance id being recorded", c.loc)
+
+
 def run(ctx):
     prog = ctx.prog
     ctx.explanation = (
@@ -61,6 +89,7 @@ def run(ctx):
         else:
             r2.violation(key, "source blocks completed before the FDT was attached (in-band OTI, late join) are never handed to the "
                               "writer: write_blocks(0, ..) does not follow the opening of the writer; the object stays Receiving for ever", s.loc)
+    attach_order_rule(ctx, r2)
     parts = set(s.bb for s in call_sites(f, lambda p, c: p == OR + "::init_blocks_partitioning"))
     for s in inits:
         if parts and all(fl.dominates(pb, s.bb) for pb in parts):
@@ -106,7 +135,7 @@ def run(ctx):
         r2.ok("create_obj walks self.fdt_current", "", nxt[0].loc)
     else:
         r2.violation("create_obj walks self.fdt_current", "", loc(co.sp))
-    r2.floor(7, "pairings")
+    r2.floor(9, "pairings")
 
     r3 = ctx.rule("C16.R3", "objects_completed.insert happens only in check_object_state under the Completed arm of the object's state", "DOM+WMC")
     for s, ai, mut in calls_on_field(prog, RC, "objects_completed"):
